@@ -72,6 +72,10 @@ ODD_TEXTS = [
     'IGNORE .\n', 'IGNORE ..\n', 'IGNORE a/\n', 'DATA . 0\n',
     'IGNORE .hid\n', 'DATA .hid 0\n', 'IGNORE sub/.git\nDATA a 3 MD5 47bce5c74f589f4867dbd57e9ca9f808\n',
     'DATA .hid/den 0\n', 'IGNORE .hid/den\n',
+    # checksum names that collide with names used internally
+    'DATA a 3 __size__ 3\n', 'DATA a 3 __exists__ True\n', 'DATA a 3 __type__ regular\n',
+    'DATA a 3 __mtime__ 0\n', 'DATA sub/inner 1 __size__ 1 MD5 00\n',
+    'DATA a 3 {} 0\n', 'DATA a 3 SHA{512\n', 'DATA a \u00b2\n', 'DATA a ' + '9' * 5000 + '\n',
 ]
 
 
